@@ -169,7 +169,11 @@ class InversionImagingMapping(AbstractInversionImaging):
                 noise_map=self.noise_map,
                 settings=self.settings,
                 add_to_curvature_diag=True,
-                no_regularization_index_list=self.no_regularization_index_list,
+                no_regularization_index_list=[
+                    index - mapper_param_range_i[0]
+                    for index in self.no_regularization_index_list
+                    if mapper_param_range_i[0] <= index < mapper_param_range_i[1]
+                ],
             )
 
             curvature_matrix[
